@@ -75,6 +75,20 @@ Definition orc_answer (st : store) (q : query) (m : cmode) (ob : obs) : bool :=
   | Ok rs, ObsRows _ rs' => rows_match m rs rs'
   | _, _ => false
   end.
+(** SKIP / LIMIT without a total ORDER BY: WHICH rows are cut is not defined by the query (the order
+    of groups, of DISTINCT rows, of bindings is not), so the engine's rows must be SOME rows of the
+    full answer — a sub-multiset — and as many as the clauses leave *)
+Fixpoint sub_bag (a b : list (list val)) : bool :=
+  match a with
+  | [] => true
+  | x :: xs => match remove_first x b with Some b' => sub_bag xs b' | None => false end
+  end.
+Definition orc_answer_cut (st : store) (q : query) (ob : obs) : bool :=
+  match answer st (mkQ (q_pat q) (q_where q) (q_ret q) (q_order q) None None), ob with
+  | Ok full, ObsRows _ rs =>
+      Nat.eqb (List.length rs) (List.length (spec_limit (q_limit q) (spec_skip (q_skip q) full))) && sub_bag rs full
+  | _, _ => false
+  end.
 Definition show_answer (st : store) (q : query) : option (list (list val)) :=
   match answer st q with Ok rs => Some rs | Err => None end.
 (** the dumped plan agrees with the declarative answer when no physical optimisation interferes
